@@ -108,3 +108,10 @@ CHECKS['C12'] = {
     'text': 'The library objects are linked against an own OpenMP runtime that decides which team member runs. Every scenario (transforms, extension, Merkle builders incl. batched and AVX-512, parcpy/parSetZero) is executed for every team size and every member order with exact per-member read/write sets: no two members may conflict in any region and the output must be bit-identical to the single-member run. On the small scenarios every interleaving with at most two preemptions at element granularity is explored region by region, with the end-of-region memory state compared to the default schedule. The same bodies run with real threads under ThreadSanitizer.',
     'note': 'Sequential consistency assumed; instrumented accesses are what gcc -fsanitize=thread emits with mem* builtins disabled plus wrapped mem* calls. The first region of NTT_iters runs with the process-wide default team (omp_set_num_threads is called after it), which the runtime models.',
 }
+
+CHECKS['C18'] = {
+    'engine': 'cfgx+ovl (sanitizer builds)',
+    'technique': 'the exhaustive enumerations of C03-C10, C13-C17, C19 re-executed on AddressSanitizer+UBSan builds with exact-size guard-page / poisoned arenas; every report attributed to the enumerated case',
+    'text': 'Memory safety is decided on the same finite spaces as the functional properties: every transform configuration, every call history with destruction of the object, every sponge length and Merkle shape (smallest shapes included), the Poseidon/cubic/inverse/conversion enumerations, the matrix kernels with exact heap coefficient blocks and the whole overload catalogue are run under AddressSanitizer (bounds, alloc/dealloc and new/delete mismatch) and non-recoverable UBSan; arrays are exact-size and fenced by PROT_NONE pages so that vector code and inline asm that the sanitizer does not instrument still fault on an out-of-extent access.',
+    'note': 'Uninitialised reads are not detected (no MemorySanitizer-instrumented libstdc++/gmp offline). Leak checking is off. Shapes above the enumeration bounds are not run.',
+}
